@@ -93,7 +93,7 @@ Definition w_count_utf8 := mk FCount 0 0 P0 (SStr [0;133;0]) SNil None None None
 (* (assoc 1 nil) => nil (repaired: was a type-error); (assoc 1 '((2 . 0)) :test '<) => nil *)
 Definition w_assoc_nil := mk FAssoc 1 0 P0 SNil SNil None None None TDefault CAbsent false.
 Definition w_assoc_order := mk FAssoc 1 0 P0 (SList [2]) (SList [0]) None None None (TTest TLt) CAbsent false.
-(* (search '(1 2) '(1 2 3) :from-end t) => 0 (repaired: was nil); (search '() '(1 2 3) :start2 1) => 0 *)
+(* (search '(1 2) '(1 2 3) :from-end t) => 0 (repaired: was nil); (search '() '(1 2 3) :start2 1) => 1 (repaired: was 0) *)
 Definition w_search_from_end :=
   mkCall FSearch 0 0 P0 (SList [1;2]) (SList [1;2;3]) None None false None None None TDefault CAbsent true BAdd None 1 false TrNum.
 Definition w_search_empty :=
@@ -135,7 +135,7 @@ Definition w_find_if_not := mk FFindIfNot 0 0 P0 (SVec [0;1;2]) SNil None None N
 
 Definition refutation_witnesses : list call :=
   [w_remove_if_not; w_find_if_not; w_test_not; w_subst_test_not; w_setdiff_test_not; w_subst_count; w_subst_count0; w_subst_count_neg;
-   w_assoc_order; w_search_empty; w_mismatch_from_end; w_mismatch_start;
+   w_assoc_order; w_mismatch_from_end; w_mismatch_start;
    w_replace_end; w_fill_end;
    w_merge_tie; w_some_value; w_reduce_empty; w_reduce_start; w_dups_ne; w_dups_from_end].
 
@@ -154,7 +154,7 @@ Proof. vm_compute. split; reflexivity. Qed.
 Definition repaired_witnesses : list (call * res) :=
   [ (w_count_utf8, RInt 2); (w_count_nil, RSeq [2]); (w_assoc_nil, RNil);
     (w_subseq_nil, RSeq []); (w_every_nil, RTrue); (w_subsetp_nil, RTrue); (w_reduce_nil, RElt 5);
-    (w_map_nil, RSeq []); (w_merge_nil, RSeq [1]); (w_search_from_end, RInt 0) ].
+    (w_map_nil, RSeq []); (w_merge_nil, RSeq [1]); (w_search_from_end, RInt 0); (w_search_empty, RInt 1) ].
 Definition repaired_ok (cr : call * res) : bool :=
   in_domain (fst cr) &&
   match m_call (fst cr), s_call (fst cr) with
@@ -258,8 +258,6 @@ Proof. vm_compute. repeat split; reflexivity. Qed.
 Lemma substitute_count_refuted : refutes w_subst_count = true /\ refutes w_subst_count0 = true /\ refutes w_subst_count_neg = true.
 Proof. vm_compute. repeat split; reflexivity. Qed.
 Lemma assoc_refuted : refutes w_assoc_order = true.
-Proof. vm_compute. reflexivity. Qed.
-Lemma search_refuted : refutes w_search_empty = true.
 Proof. vm_compute. reflexivity. Qed.
 Lemma mismatch_refuted : refutes w_mismatch_from_end = true /\ refutes w_mismatch_start = true.
 Proof. vm_compute. split; reflexivity. Qed.
